@@ -90,6 +90,35 @@ type walker struct {
 	gen, fn  string
 	held     []string // e.g. "phaseMutex:W", "partlock:R"
 	rangeVar map[string]bool
+	recvVar  string // name of the method's receiver variable ("" for plain functions)
+}
+
+// fields that are shared between goroutines and protected by a mutex of the same struct
+var guardedFields = map[string]bool{
+	"partitions": true, "listeners": true, "phase": true,
+	"head": true, "tail": true, "cursor": true, "isShutdown": true, "len": true,
+}
+
+// fieldAccesses records reads / writes of guarded receiver fields (r.<field>) inside e
+func (w *walker) fieldAccesses(e ast.Expr, write bool) {
+	if w.recvVar == "" || e == nil {
+		return
+	}
+	ast.Inspect(e, func(n ast.Node) bool {
+		switch x := n.(type) {
+		case *ast.FuncLit:
+			return false
+		case *ast.SelectorExpr:
+			if id, ok := x.X.(*ast.Ident); ok && id.Name == w.recvVar && guardedFields[x.Sel.Name] {
+				if write {
+					w.emit("write", x.Sel.Name)
+				} else {
+					w.emit("read", x.Sel.Name)
+				}
+			}
+		}
+		return true
+	})
 }
 
 func (w *walker) has(l string) bool {
@@ -183,14 +212,23 @@ func (w *walker) stmt(s ast.Stmt) {
 	switch x := s.(type) {
 	case *ast.ExprStmt:
 		w.exprCalls(x.X)
+		w.fieldAccesses(x.X, false)
 	case *ast.AssignStmt:
 		for _, r := range x.Rhs {
 			w.exprCalls(r)
+			w.fieldAccesses(r, false)
 		}
-	case *ast.DeclStmt, *ast.IncDecStmt, *ast.BranchStmt, *ast.EmptyStmt:
+		for _, l := range x.Lhs {
+			// r.f = v writes f; r.f[i] = v and r.f.g = v write through f
+			w.fieldAccesses(l, true)
+		}
+	case *ast.IncDecStmt:
+		w.fieldAccesses(x.X, true)
+	case *ast.DeclStmt, *ast.BranchStmt, *ast.EmptyStmt:
 	case *ast.ReturnStmt:
 		for _, r := range x.Results {
 			w.exprCalls(r)
+			w.fieldAccesses(r, false)
 		}
 	case *ast.DeferStmt:
 		if m, op := lockOp(x.Call); m != "" {
@@ -204,7 +242,7 @@ func (w *walker) stmt(s ast.Stmt) {
 		w.emit("go", exprString(x.Call.Fun))
 		if fl, ok := x.Call.Fun.(*ast.FuncLit); ok {
 			// the goroutine body runs without the caller's locks
-			w2 := &walker{gen: w.gen, fn: w.fn + "$go", rangeVar: map[string]bool{}}
+			w2 := &walker{gen: w.gen, fn: w.fn + "$go", rangeVar: map[string]bool{}, recvVar: w.recvVar}
 			w2.stmts(fl.Body.List)
 		}
 	case *ast.SendStmt:
@@ -214,6 +252,7 @@ func (w *walker) stmt(s ast.Stmt) {
 			w.stmt(x.Init)
 		}
 		w.exprCalls(x.Cond)
+		w.fieldAccesses(x.Cond, false)
 		saved := append([]string{}, w.held...)
 		w.stmts(x.Body.List)
 		w.held = append([]string{}, saved...)
@@ -226,9 +265,11 @@ func (w *walker) stmt(s ast.Stmt) {
 	case *ast.ForStmt:
 		if x.Cond != nil {
 			w.exprCalls(x.Cond)
+			w.fieldAccesses(x.Cond, false)
 		}
 		w.stmts(x.Body.List)
 	case *ast.RangeStmt:
+		w.fieldAccesses(x.X, false)
 		if strings.HasSuffix(exprString(x.X), ".listeners") {
 			if id, ok := x.Value.(*ast.Ident); ok {
 				w.rangeVar[id.Name] = true
@@ -238,11 +279,13 @@ func (w *walker) stmt(s ast.Stmt) {
 	case *ast.SwitchStmt:
 		if x.Tag != nil {
 			w.exprCalls(x.Tag)
+			w.fieldAccesses(x.Tag, false)
 		}
 		for _, c := range x.Body.List {
 			cc := c.(*ast.CaseClause)
 			for _, e := range cc.List {
 				w.exprCalls(e)
+				w.fieldAccesses(e, false)
 			}
 			saved := append([]string{}, w.held...)
 			w.stmts(cc.Body)
@@ -431,6 +474,9 @@ func main() {
 					name = r + "." + name
 				}
 				w := &walker{gen: g.gen, fn: name, rangeVar: map[string]bool{}}
+				if fd.Recv != nil && len(fd.Recv.List) > 0 && len(fd.Recv.List[0].Names) > 0 {
+					w.recvVar = fd.Recv.List[0].Names[0].Name
+				}
 				w.stmts(fd.Body.List)
 			}
 		}
@@ -447,7 +493,7 @@ func main() {
 	fmt.Println("Definition facts : list fact := [")
 	first := true
 	for _, f := range facts {
-		if len(f.held) == 0 && f.action != "unknown" {
+		if len(f.held) == 0 && f.action != "unknown" && f.action != "read" && f.action != "write" {
 			continue // nothing held: not a locking fact
 		}
 		if !first {
